@@ -482,6 +482,12 @@ def run(prop, tier):
     filt = None
     if prop == "C16":
         filt = filter_stream(ck, tier, ex, ps)
+    filesink = None
+    if prop == "C06":
+        # the sink's half of C06: the real stream sinks' write/flush protocol vs FileSink.step + read-back oracle (tools/filesink_stream.py)
+        import filesink_stream
+        filesink = filesink_stream.run(ck, tier, ps)
+
     sinkreg = None
     if prop == "C17":
         # the by-name sink registry: real SinkManager vs SinkReg.step + idempotence oracles (tools/sinkreg_stream.py)
@@ -549,6 +555,8 @@ def run(prop, tier):
         ck.cov["filter_stream"] = filt
     if sinkreg is not None:
         ck.cov["sink_registry_stream"] = sinkreg
+    if filesink is not None:
+        ck.cov["stream_sink_flush_stream"] = filesink
     return ck.finish()
 
 
@@ -577,6 +585,9 @@ def replay(prop, path):
     first = open(path).readline().strip()
     if first.startswith(FILT_TAG):
         return replay_filt(prop, path, first)
+    if "filesink" in open(path).readline():
+        import filesink_stream
+        return filesink_stream.replay(prop, path)
     if "sinkreg" in open(path).readline():
         import sinkreg_stream
         return sinkreg_stream.replay(prop, path)
